@@ -94,8 +94,37 @@ package bloomsearch
 //@ ghostvar closeOKAtUpdate int      // value of closeOK when Update was last called
 //@ ghostvar updateOKAtTombstone int  // value of updateOK when TombstoneFile was last called
 
-//@ modset store = ghost.creates, ghost.created, ghost.writes, ghost.closeCalls, ghost.closeOK, ghost.aborts, ghost.tombstones, ghost.opens, ghost.updates, ghost.updateOK, ghost.closeOKAtUpdate, ghost.updateOKAtTombstone, ghost.tombstonesAtUpdate
-//@ modset answers = ghost.attempts, ghost.sendRounds, ghost.nilRounds, ghost.updateOKAtNilRound, ghost.sends, ghost.nilsends, ghost.recvs
+// Package-level sentinel errors are created by errors.New at package
+// initialisation and never reassigned: they are non-nil and pairwise distinct.
+//@ global ErrEngineStopped != nil && ErrMergeInProgress != nil && ErrPostCommitCleanup != nil && ErrInvalidHash != nil && ErrInvalidConfig != nil
+//@ global ErrEngineStopped != ErrMergeInProgress && ErrMergeInProgress != ErrPostCommitCleanup
+
+//@ ghostvar roundAttempts int  // waiters attempted inside answer rounds (attempts - roundAttempts = direct answers)
+//@ ghostvar flushTriggers int   // calls of triggerFlush
+//@ ghostvar rwRLocks int        // (*sync.RWMutex).RLock calls
+//@ ghostvar rwRUnlocks int      // (*sync.RWMutex).RUnlock calls
+//@ ghostvar rwLocks int         // (*sync.RWMutex).Lock calls
+//@ ghostvar rwUnlocks int       // (*sync.RWMutex).Unlock calls
+//@ ghostvar bufOwned map[int]bool   // scan-buffer typestate: backing array is checked out of the pool and not yet returned
+
+//@ extern (*sync.RWMutex).RLock
+//@ modifies ghost.rwRLocks
+//@ ensures ghost.rwRLocks == old(ghost.rwRLocks) + 1
+//@ extern (*sync.RWMutex).RUnlock
+//@ modifies ghost.rwRUnlocks
+//@ ensures ghost.rwRUnlocks == old(ghost.rwRUnlocks) + 1
+//@ extern (*sync.RWMutex).Lock
+//@ modifies ghost.rwLocks
+//@ ensures ghost.rwLocks == old(ghost.rwLocks) + 1
+//@ extern (*sync.RWMutex).Unlock
+//@ modifies ghost.rwUnlocks
+//@ ensures ghost.rwUnlocks == old(ghost.rwUnlocks) + 1
+//@ extern (*sync.Mutex).Lock
+//@ modifies ghost.mutexLocks
+//@ ensures ghost.mutexLocks == old(ghost.mutexLocks) + 1
+
+//@ modset store =ghost.creates, ghost.created, ghost.writes, ghost.closeCalls, ghost.closeOK, ghost.aborts, ghost.tombstones, ghost.opens, ghost.updates, ghost.updateOK, ghost.closeOKAtUpdate, ghost.updateOKAtTombstone, ghost.tombstonesAtUpdate
+//@ modset answers = ghost.attempts, ghost.roundAttempts, ghost.sendRounds, ghost.nilRounds, ghost.updateOKAtNilRound, ghost.sends, ghost.nilsends, ghost.recvs
 
 // Store interfaces: results are unconstrained (any call may fail, in any
 // combination); each call only records that it happened.
@@ -190,7 +219,10 @@ package bloomsearch
 //@ entry ghost.sendRounds = ghost.sendRounds + 1
 //@ entry ghost.nilRounds = value == nil ? ghost.nilRounds + 1 : ghost.nilRounds
 //@ entry ghost.updateOKAtNilRound = value == nil ? ghost.updateOK : ghost.updateOKAtNilRound
-//@ modifies ghost.attempts, ghost.sendRounds, ghost.nilRounds, ghost.updateOKAtNilRound, ghost.sends, ghost.nilsends, ghost.recvs
+//@ entry ghost.roundAttempts = ghost.roundAttempts + len(channels)
+//@ modifies ghost.attempts, ghost.roundAttempts, ghost.sendRounds, ghost.nilRounds, ghost.updateOKAtNilRound, ghost.sends, ghost.nilsends, ghost.recvs
+//@ ensures ghost.roundAttempts == old(ghost.roundAttempts) + len(channels)
+//@ loop 0 invariant ghost.roundAttempts == old(ghost.roundAttempts) + len(channels)
 //@ ensures value == nil ==> ghost.updateOKAtNilRound == ghost.updateOK
 //@ ensures value != nil ==> ghost.updateOKAtNilRound == old(ghost.updateOKAtNilRound)
 //@ loop 0 invariant ghost.updateOKAtNilRound == (value == nil ? ghost.updateOK : old(ghost.updateOKAtNilRound))
@@ -248,6 +280,101 @@ package bloomsearch
 //@ ensures [C06] ghost.nilRounds == old(ghost.nilRounds) && ghost.created > old(ghost.created) ==> ghost.tombstones == old(ghost.tombstones) + 1
 //@ ensures [C06] ghost.nilRounds > old(ghost.nilRounds) ==> ghost.tombstones == old(ghost.tombstones) && ghost.aborts == old(ghost.aborts)
 //@ ensures [C08] old(ghost.recvs[doneChan(ctx)]) > 0 ==> ghost.creates == old(ghost.creates) && ghost.updates == old(ghost.updates) && ghost.nilRounds == old(ghost.nilRounds)
+
+// ---------------------------------------------------------------------------
+// ingest.go — acceptance, the ingest actor's routing (C05, C07, C08, C09)
+// ---------------------------------------------------------------------------
+
+// triggerFlush: the request is enqueued (blocking send) or, if the flush
+// context is done, every waiter is attempted once with a non-nil error — at
+// least one of the two always happens (no default case).
+//@ func (*BloomSearchEngine).triggerFlush
+//@ props C05 C07 C09
+//@ requires b != nil
+//@ entry ghost.flushTriggers = ghost.flushTriggers + 1
+//@ modifies ghost.flushTriggers, $answers
+//@ ensures ghost.flushTriggers == old(ghost.flushTriggers) + 1
+//@ ensures [C05,C09] ghost.sendRounds == old(ghost.sendRounds) || ghost.sendRounds == old(ghost.sendRounds) + 1
+//@ ensures [C05,C09] ghost.sendRounds == old(ghost.sendRounds) ==> sent(b.flushChan) == old(sent(b.flushChan)) + 1 && ghost.attempts == old(ghost.attempts)
+//@ ensures [C05] ghost.sendRounds == old(ghost.sendRounds) + 1 ==> ghost.attempts == old(ghost.attempts) + len(doneChans) && ghost.roundAttempts == old(ghost.roundAttempts) + len(doneChans)
+//@ ensures [C07] forall c :: sentnil(c) == old(sentnil(c))
+//@ ensures ghost.attempts - ghost.roundAttempts == old(ghost.attempts) - old(ghost.roundAttempts)
+
+// flushBufferedData: with nothing pending nothing happens; otherwise exactly one
+// triggerFlush call receives copies holding exactly the pending buffers and
+// waiters, and the actor's state is empty afterwards — nothing dropped, nothing
+// kept.
+//@ func (*BloomSearchEngine).flushBufferedData
+//@ props C05 C07
+//@ requires b != nil && doneChans != nil && bufferedRowCount != nil && bufferedBytes != nil && bufferStartTime != nil
+//@ modifies heaps, ghost.flushTriggers, $answers
+//@ loop 0 invariant forall key str :: $visited[key] ==> has(partitionBuffersCopy, key) && partitionBuffersCopy[key] == partitionBuffers[key]
+//@ loop 0 invariant ghost.flushTriggers == old(ghost.flushTriggers) && len(*doneChans) == old(len(*doneChans)) && *doneChans == old(*doneChans)
+//@ loop 0 invariant forall k :: 0 <= k && k < len(*doneChans) ==> (*doneChans)[k] == old((*doneChans)[k])
+//@ loop 1 invariant ghost.flushTriggers == old(ghost.flushTriggers) + 1 && ghost.attempts - ghost.roundAttempts == old(ghost.attempts) - old(ghost.roundAttempts)
+//@ loop 1 invariant forall c :: sentnil(c) == old(sentnil(c))
+//@ at call triggerFlush#1 assert [C05] len(doneChannsCopy) == len(*doneChans) && forall k :: 0 <= k && k < len(*doneChans) ==> doneChannsCopy[k] == old((*doneChans)[k])
+//@ at call triggerFlush#1 assert [C05] forall key str :: has(partitionBuffers, key) ==> has(partitionBuffersCopy, key) && partitionBuffersCopy[key] == partitionBuffers[key]
+//@ ensures [C05] old(len(partitionBuffers)) == 0 && old(len(*doneChans)) == 0 ==> ghost.flushTriggers == old(ghost.flushTriggers) && len(*doneChans) == 0
+//@ ensures [C05,C07] old(len(partitionBuffers)) != 0 || old(len(*doneChans)) != 0 ==> ghost.flushTriggers == old(ghost.flushTriggers) + 1 && len(*doneChans) == 0 && *bufferedRowCount == 0 && *bufferedBytes == 0
+//@ ensures [C05] ghost.attempts - ghost.roundAttempts == old(ghost.attempts) - old(ghost.roundAttempts)
+//@ ensures [C07] forall c :: sentnil(c) == old(sentnil(c))
+
+// processIngestRequest: on every path the request's channel is answered once now
+// (a direct answer: empty batch, marshal error, oversize row, encoder error,
+// buffering error) and not retained, or retained once and not answered — and if
+// a flush is triggered everything retained is handed over (flushBufferedData).
+// A force flush always enqueues and never answers inline; a nil answer to a
+// non-empty batch or to Flush is never produced on the ingest actor (C07).
+// The actor's own answers must use the flush context, not the engine context
+// that Stop cancels (precondition, checked at the worker's call sites).
+//@ func (*BloomSearchEngine).processIngestRequest
+//@ props C05 C07
+//@ requires b != nil && doneChans != nil && bufferedRowCount != nil && bufferedBytes != nil && bufferStartTime != nil
+//@ requires [C05] ctx == b.flushCtx
+//@ modifies heaps, ghost.flushTriggers, ghost.writes, $answers
+//@ let direct0 = ghost.attempts - ghost.roundAttempts
+//@ loop 1 invariant ghost.attempts == old(ghost.attempts) && ghost.roundAttempts == old(ghost.roundAttempts) && ghost.flushTriggers == old(ghost.flushTriggers) && len(*doneChans) == old(len(*doneChans)) && forall c :: sentnil(c) == old(sentnil(c))
+//@ loop 2 invariant ghost.attempts == old(ghost.attempts) && ghost.roundAttempts == old(ghost.roundAttempts) && ghost.flushTriggers == old(ghost.flushTriggers) && len(*doneChans) == old(len(*doneChans)) && forall c :: sentnil(c) == old(sentnil(c))
+//@ loop 3 invariant ghost.attempts == old(ghost.attempts) && ghost.roundAttempts == old(ghost.roundAttempts) && ghost.flushTriggers == old(ghost.flushTriggers) && len(*doneChans) == old(len(*doneChans)) && forall c :: sentnil(c) == old(sentnil(c))
+//@ loop 4 invariant ghost.attempts == old(ghost.attempts) && ghost.roundAttempts == old(ghost.roundAttempts) && ghost.flushTriggers == old(ghost.flushTriggers) && len(*doneChans) == old(len(*doneChans)) && forall c :: sentnil(c) == old(sentnil(c))
+//@ loop 5 invariant ghost.attempts == old(ghost.attempts) && ghost.roundAttempts == old(ghost.roundAttempts) && ghost.flushTriggers == old(ghost.flushTriggers) && len(*doneChans) == old(len(*doneChans)) && forall c :: sentnil(c) == old(sentnil(c))
+//@ loop 6 invariant ghost.attempts == old(ghost.attempts) && ghost.roundAttempts == old(ghost.roundAttempts) && ghost.flushTriggers == old(ghost.flushTriggers) && len(*doneChans) == old(len(*doneChans)) && forall c :: sentnil(c) == old(sentnil(c))
+//@ loop 7 invariant ghost.attempts == old(ghost.attempts) && ghost.roundAttempts == old(ghost.roundAttempts) && ghost.flushTriggers == old(ghost.flushTriggers) && len(*doneChans) == old(len(*doneChans)) && forall c :: sentnil(c) == old(sentnil(c))
+//@ ensures [C05] (ghost.attempts - ghost.roundAttempts == direct0 + 1 && ghost.flushTriggers == old(ghost.flushTriggers) && len(*doneChans) == old(len(*doneChans)))
+//@           || (ghost.attempts - ghost.roundAttempts == direct0 && ghost.flushTriggers == old(ghost.flushTriggers) && len(*doneChans) == old(len(*doneChans)) + 1)
+//@           || (ghost.attempts - ghost.roundAttempts == direct0 && ghost.flushTriggers == old(ghost.flushTriggers) + 1 && len(*doneChans) == 0)
+//@ ensures [C07] old(req.forceFlush) ==> ghost.flushTriggers == old(ghost.flushTriggers) + 1 && ghost.attempts - ghost.roundAttempts == direct0
+//@ ensures [C07] old(req.forceFlush) || old(len(req.rows)) > 0 ==> forall c :: sentnil(c) == old(sentnil(c))
+
+// The ingest actor hands every accepted request to processIngestRequest with the
+// flush context (its precondition), in the normal loop and in the shutdown drain.
+//@ func (*BloomSearchEngine).ingestWorker
+//@ props C05
+//@ requires b != nil
+//@ modifies all
+
+// IngestRows / Flush: refused once stopped; accepted iff the request was sent on
+// ingestChan, and the send happens while the read lock is held; the lock is
+// released on every path.
+//@ func (*BloomSearchEngine).IngestRows
+//@ props C05 C08 C09
+//@ requires b != nil
+//@ modifies heaps, ghost.rwRLocks, ghost.rwRUnlocks, ghost.sends, ghost.nilsends, ghost.recvs
+//@ at select #1 assert [C05,C08] ghost.rwRLocks == old(ghost.rwRLocks) + 1 && ghost.rwRUnlocks == old(ghost.rwRUnlocks) && !b.stopped
+//@ ensures [C08] old(b.stopped) ==> result == ErrEngineStopped && sent(b.ingestChan) == old(sent(b.ingestChan))
+//@ ensures [C05,C09] result == nil ==> sent(b.ingestChan) == old(sent(b.ingestChan)) + 1
+//@ ensures [C05,C09] result != nil ==> sent(b.ingestChan) == old(sent(b.ingestChan))
+//@ ensures [C05] ghost.rwRLocks == old(ghost.rwRLocks) + 1 && ghost.rwRUnlocks == old(ghost.rwRUnlocks) + 1
+
+//@ func (*BloomSearchEngine).Flush
+//@ props C05 C08
+//@ requires b != nil
+//@ modifies heaps, ghost.rwRLocks, ghost.rwRUnlocks, ghost.sends, ghost.nilsends, ghost.recvs
+//@ at select #1 assert [C05,C08] ghost.rwRLocks == old(ghost.rwRLocks) + 1 && ghost.rwRUnlocks == old(ghost.rwRUnlocks) && !b.stopped
+//@ ensures [C08] old(b.stopped) ==> result == ErrEngineStopped && sent(b.ingestChan) == old(sent(b.ingestChan))
+//@ ensures [C05] sent(b.ingestChan) == old(sent(b.ingestChan)) || sent(b.ingestChan) == old(sent(b.ingestChan)) + 1
+//@ ensures [C05] ghost.rwRLocks == old(ghost.rwRLocks) + 1 && ghost.rwRUnlocks == old(ghost.rwRUnlocks) + 1
 
 // ---------------------------------------------------------------------------
 // merge.go — commit protocol (C13)
